@@ -41,6 +41,7 @@ for sid, a in sorted(ANNOT.items()):
         ] + runs,
         "checks": {e: ("caught" if ok == "1" else "missed") for e, ok in engines},
         "verdict": a["verdict"],
+        **({"suite_extra": a["suite_extra"]} if "suite_extra" in a else {}),
         "strengthening": a.get("strengthening", ""),
     }
     with open(os.path.join(d, "meta.json"), "w") as f:
